@@ -39,7 +39,7 @@ class Fork:
         i = len(self.taken)
         s = z3.Solver()
         s.set("timeout", 5000)
-        s.add(*self.base, *self.pc)
+        s.add(*self.base, *self.pc, *ROUNDING_AXIOMS)
         can_t = str(_check(s, cond)) != "unsat"
         can_f = str(_check(s, z3.Not(cond))) != "unsat"
         if i < len(self.prefix):
@@ -61,6 +61,7 @@ def _check(s, c):
 
 
 FORK: Fork = None  # type: ignore
+ROUNDING_AXIOMS = []
 
 
 class SymBool:
@@ -110,7 +111,16 @@ def cast_term(v, src, dst):
         return v != 0
     if sk == "f":
         if dk == "f":
-            return v  # rounding between float widths is below the tolerance semantics (Real abstraction)
+            if real_np.dtype(dst).itemsize >= real_np.dtype(src).itemsize:
+                return v  # widening is exact
+            # narrowing is a NON-identity rounding (uninterpreted, with its relative error bound): a
+            # helper that compares in the narrower type can hide a difference below that resolution
+            name = f"rnd{real_np.dtype(dst).itemsize * 8}"
+            f = z3.Function(name, z3.RealSort(), z3.RealSort())
+            r = f(v)
+            eps = {4: 2.0 ** -23, 2: 2.0 ** -10}.get(real_np.dtype(dst).itemsize, 2.0 ** -7)
+            ROUNDING_AXIOMS.append(z3.If(r - v >= 0, r - v, v - r) <= z3.RealVal(eps) * z3.If(v >= 0, v, -v))
+            return r
         if dk == "i":
             t = z3.If(v >= 0, z3.ToInt(v), -z3.ToInt(-v))
             return wrap_int(t, dst)
@@ -259,7 +269,9 @@ def spec_formula(jax_outs, ort_outs, rtol, atol, out_nchw):
             if ke == "f" or kg == "f":
                 xr, yr = _real(x, e.dtype), _real(y, g.dtype)
                 d = xr - yr
-                conds.append(z3.If(d >= 0, d, -d) <= atol + rtol * z3.If(yr >= 0, yr, -yr))
+                # margin: numpy evaluates the tolerance test in floating point; a difference that
+                # exceeds the exact bound by less than 1e-6 relative is rounding noise, not a finding
+                conds.append(z3.If(d >= 0, d, -d) <= (atol + rtol * z3.If(yr >= 0, yr, -yr)) * z3.RealVal("1.000001") + z3.RealVal("0.000000001"))
             elif ke == kg:
                 conds.append(x == y)
             else:
@@ -397,6 +409,43 @@ def replay(cfg, model, jax_outs, ort_outs, rtol, atol):
     return ok, {"jax_outputs": [a.tolist() for a in jv], "ort_outputs": [a.tolist() for a in ov], "rtol": rt, "atol": at, "allclose_returned": [ok, msg], "x64_restored": prev == after}
 
 
+def replay_mixed_width(cfg):
+    """The solver's rounding function is uninterpreted, so its model need not be a real float32
+    rounding.  For configurations with one float64 and one float32 side, craft the witness the
+    query describes: wide = narrow * (1 + 2^-30) (rounds to `narrow` in float32), tolerances 0."""
+    import onnx
+    from onnx import helper, numpy_helper
+    import jax2onnx
+
+    if len(cfg["jax"]) != 1 or len(cfg["ort"]) != 1:
+        return False, {}
+    (jd, js), (od, osh) = cfg["jax"][0], cfg["ort"][0]
+    if {jd, od} != {"f32", "f64"} or js != osh:
+        return False, {}
+    narrow = (real_np.arange(int(real_np.prod(js)) if js else 1, dtype=real_np.float32).reshape(js) + 1.25)
+    wide = narrow.astype(real_np.float64) * (1.0 + 2.0 ** -30)
+    jv = wide if jd == "f64" else narrow
+    ov = wide if od == "f64" else narrow
+    node = helper.make_node("Constant", [], ["o0"], value=numpy_helper.from_array(ov, "c0"))
+    g = helper.make_graph([node], "g", [], [helper.make_tensor_value_info("o0", helper.np_dtype_to_tensor_dtype(ov.dtype), list(ov.shape))])
+    m = helper.make_model(g, opset_imports=[helper.make_opsetid("", 21)], ir_version=10)
+    d = tempfile.mkdtemp(prefix="c18_", dir="/verif/.work")
+    path = os.path.join(d, "m.onnx")
+    onnx.save(m, path)
+    try:
+        def fn():
+            import jax.numpy as jnp
+
+            return jnp.asarray(jv)
+
+        ok, msg = jax2onnx.allclose(fn, path, [], rtol=0.0, atol=0.0, enable_double_precision=True, outputs_as_nchw=cfg["nchw"])
+    finally:
+        import shutil
+
+        shutil.rmtree(d, ignore_errors=True)
+    return ok, {"jax_outputs": [jv.tolist()], "ort_outputs": [ov.tolist()], "rtol": 0.0, "atol": 0.0, "allclose_returned": [ok, msg], "crafted": "wide = narrow*(1+2^-30)"}
+
+
 def x64_kernel(ui):
     """_temporary_x64 restores the flag on every exit (side condition, 8 concrete paths)."""
     import jax
@@ -436,6 +485,7 @@ def main(tier):
         base += [rtol >= 0, atol >= 0, rtol <= 1, atol <= 1000]
         jax_outs = [fresh_arr(f"e{i}_", DT[d], s, base) for i, (d, s) in enumerate(cfg["jax"])]
         ort_outs = [fresh_arr(f"g{i}_", DT[d], s, base) for i, (d, s) in enumerate(cfg["ort"])]
+        del ROUNDING_AXIOMS[:]
         paths = explore(ui, jax_outs, ort_outs, rtol, atol, base, cfg["nchw"])
         spec = spec_formula(jax_outs, ort_outs, rtol, atol, cfg["nchw"])
         for verdict, msg, pc in paths:
@@ -449,7 +499,7 @@ def main(tier):
             stats["true_paths"] += 1
             s = z3.Solver()
             s.set("timeout", 20000 if tier == "quick" else 120000)
-            s.add(*base, *pc, z3.Not(spec))
+            s.add(*base, *pc, *ROUNDING_AXIOMS, z3.Not(spec))
             t1 = time.time()
             r = str(s.check())
             stats["solver_s"] += time.time() - t1
@@ -465,6 +515,10 @@ def main(tier):
             elif r == "sat":
                 stats["sat"] += 1
                 ok, info = replay(cfg, s.model(), jax_outs, ort_outs, rtol, atol)
+                if not ok:
+                    ok2, info2 = replay_mixed_width(cfg)
+                    if ok2:
+                        ok, info = ok2, info2
                 jd = ",".join(d for d, _ in cfg["jax"])
                 od = ",".join(d for d, _ in cfg["ort"])
                 if ok:
